@@ -10,3 +10,8 @@
 From V Require Import Model.C18_Table.
 
 Definition exemptions : list exemption := [].
+
+(* Map / slice fields of the owner types that are shared between goroutine entry points without being in the table, and why
+   that is safe. Currently empty: on the current tree the translator reports none (Cluster.apis and Cluster.informers are set
+   in NewCluster's literal and only ever read afterwards: never assigned, mutated or handed on, so they are not rows at all). *)
+Definition shared_exemptions : list shared_exemption := [].
